@@ -21,6 +21,9 @@ for d in sorted(glob.glob(os.path.join(os.path.dirname(os.path.abspath(__file__)
         det.append(f"{c}: {'caught' if v.get('detected') else 'MISSED'}{' (' + cls + ')' if cls else ''}")
     confirmed = "yes" if (m.get("tests_pass_with_change") and (m.get("demo_fails_with_change") in (True, None)) and (m.get("demo_passes_without_change") in (True, None))) else "NO"
     summ = (m.get("summary") or "").replace("|", "/").replace("\n", " ")
+    if m.get("obsolete"):
+        confirmed = "obsolete"
+        det.append("see note")
     rows.append(f"| {m['name']} | {m['property']} | {summ[:170]} | {confirmed} | {'; '.join(det)} |")
 print("| seed | property | change | confirmed | quick check result |")
 print("|------|----------|--------|-----------|--------------------|")
